@@ -40,7 +40,7 @@ func init() {
 			{Name: "memkm+memca authority", Kind: "real"},
 			{Name: "version control", Kind: "stub", Note: "SimVCS (fault-free here)"},
 		},
-		Budget: core.StdBudget(1500, 100*time.Second, 200000, 25*time.Minute),
+		Budget: core.StdBudget(1500, 100*time.Second, 200000, 9*time.Minute),
 		Body:   runC13,
 	})
 }
